@@ -12,7 +12,7 @@ import numpy as np
 from scipy.ndimage import grey_closing, grey_dilation, grey_erosion, grey_opening, uniform_filter1d
 
 from ._algorithm_setup import _Algorithm, _class_wrapper
-from ._validation import _check_lam
+from ._validation import _check_half_window, _check_lam
 from .utils import _mollifier_kernel, _sort_array, pad_edges, padded_convolve, relative_difference
 
 
@@ -385,6 +385,9 @@ class _Morphological(_Algorithm):
         kernel = _mollifier_kernel(window_size)
         if smooth_half_window is None:
             smooth_half_window = 1
+        else:
+            # a value of 0 would create a kernel of NaN values
+            smooth_half_window = _check_half_window(smooth_half_window)
         smooth_kernel = _mollifier_kernel(smooth_half_window)
         data_bounds = slice(window_size, -window_size)
 
